@@ -26,6 +26,23 @@ static std::string bits(const reply & r)
     return s;
 }
 
+// the same questions asked through the object's own (derived) type: a member added to a derived class hides the base one
+template <class T> static std::string bits_of(const T & r)
+{
+    std::string s;
+    s += r.is_positive() ? '1' : '0';
+    s += r.is_negative() ? '1' : '0';
+    s += r.is_intermediate() ? '1' : '0';
+    return s;
+}
+
+template <class T> static std::string derived_vs_base(const T & d, const reply & b, const char *what)
+{
+    if (bits_of(d) != bits(b) || d.get_code() != b.get_code() || d.get_status_string() != b.get_status_string())
+        return std::string(" DERIVED-MISMATCH(") + what + ") " + bits_of(d) + " vs " + bits(b);
+    return "";
+}
+
 static std::string show_reply(const reply & r)
 {
     return std::to_string(r.get_code()) + ":" + hex(r.get_status_string());
@@ -36,7 +53,10 @@ static std::string run(const std::vector<std::string> & f)
     const std::string & k = f.at(0);
     if (k == "cls")
     {
-        return bits(reply((std::uint16_t)std::stoul(f.at(1)), ""));
+        reply r((std::uint16_t)std::stoul(f.at(1)), "");
+        file_size_reply fs(r);
+        file_modified_time_reply fm(r);
+        return bits(r) + derived_vs_base(fs, r, "file_size_reply") + derived_vs_base(fm, r, "file_modified_time_reply");
     }
     if (k == "cls_default")
     {
@@ -76,6 +96,15 @@ static std::string run(const std::vector<std::string> & f)
         std::string via_vec; first = true;
         for (const reply & r : rs.get_replies()) { if (!first) via_vec += ","; first = false; via_vec += show_reply(r); }
         if (via_iter != via_vec) return "ITER-MISMATCH " + via_iter + " vs " + via_vec;
+        // the aggregate a listing returns: the same members, asked through its own type and through its base
+        file_list_reply fl(rs, "a\r\nb");
+        const replies & base = fl;
+        std::string via_fl; first = true;
+        for (const reply & r : fl) { if (!first) via_fl += ","; first = false; via_fl += show_reply(r); }
+        if (fl.is_positive() != rs.is_positive() || base.is_positive() != rs.is_positive() ||
+            fl.get_status_string() != rs.get_status_string() || base.get_status_string() != rs.get_status_string() || via_fl != via_iter)
+            return "DERIVED-MISMATCH(file_list_reply) " + std::string(fl.is_positive() ? "1" : "0") + (base.is_positive() ? "1" : "0") +
+                   (rs.is_positive() ? "1" : "0") + " " + via_fl;
         return out + via_iter;
     }
     if (k == "size")
@@ -83,7 +112,7 @@ static std::string run(const std::vector<std::string> & f)
         reply r((std::uint16_t)std::stoul(f.at(1)), unhex(f.at(2)));
         file_size_reply s(r);
         std::string out = s.get_size() ? std::to_string(*s.get_size()) : "none";
-        return out + " " + std::to_string(s.get_code()) + " " + hex(s.get_status_string());
+        return out + " " + std::to_string(s.get_code()) + " " + hex(s.get_status_string()) + derived_vs_base(s, r, "file_size_reply");
     }
     if (k == "mdtm")
     {
@@ -98,7 +127,7 @@ static std::string run(const std::vector<std::string> & f)
                   std::to_string(d.fractions);
         }
         else out = "none";
-        return out + " " + std::to_string(m.get_code()) + " " + hex(m.get_status_string());
+        return out + " " + std::to_string(m.get_code()) + " " + hex(m.get_status_string()) + derived_vs_base(m, r, "file_modified_time_reply");
     }
     if (k == "list")
     {
